@@ -97,6 +97,37 @@ Theorem C18_wrap_range : forall c P x : R, 0 < P ->
 Proof. intros c P x HP; split; [apply cvc_wrap_range; auto | split; [apply cvc_wrap_equiv | apply cvc_wrap_idem; auto]]. Qed.
 Print Assumptions C18_wrap_range.
 
+(* ---- wrapping and distance of a periodic variable whose component parameters change at run time
+   (modifycvcs): after EVERY history of modifications and calls, wrap lands in the one-period interval
+   around the wrapping centre IN FORCE (that of the last modification), on an equivalent value under the
+   period in force, and is the identity inside that interval; the distance and its gradient are invariant
+   under whole periods of the period in force.  The state reached by the model is the last modification. ---- *)
+Theorem C18_object_state_is_last_modification : forall (s : pvar (T:=R)) (h : list pv_op),
+  fst (pv_run Rops s h) = pv_in_force s h.
+Proof. exact (pv_run_state Rops). Qed.
+Print Assumptions C18_object_state_is_last_modification.
+
+Theorem C18_object_wrap_follows_history : forall (s : pvar (T:=R)) (h : list pv_op) (x : R),
+  let s' := pv_in_force s h in
+  0 < pv_P s' ->
+  exists y, snd (pv_run Rops s (h ++ [PvWrap x])) = snd (pv_run Rops s h) ++ [[y]] /\
+    pv_c s' - pv_P s' / 2 <= y < pv_c s' + pv_P s' / 2 /\ (exists n : Z, y = x - IZR n * pv_P s') /\
+    (pv_c s' - pv_P s' / 2 <= x < pv_c s' + pv_P s' / 2 -> y = x).
+Proof. exact pv_history_wrap. Qed.
+Print Assumptions C18_object_wrap_follows_history.
+
+Theorem C18_object_dist2_follows_history : forall (s : pvar (T:=R)) (h : list pv_op) (x1 x2 : R) (n m : Z),
+  let s' := pv_in_force s h in
+  0 < pv_P s' ->
+  snd (pv_run Rops s (h ++ [PvDist2 (x1 + IZR n * pv_P s') (x2 + IZR m * pv_P s')])) =
+  snd (pv_run Rops s (h ++ [PvDist2 x1 x2])).
+Proof. exact pv_history_dist2. Qed.
+Print Assumptions C18_object_dist2_follows_history.
+
+Example C18_example_object_history :
+  pv_in_force {| pv_P := 10; pv_c := 0 |} [PvWrap 13; PvModify 25 3; PvDist2 1 2] = {| pv_P := 25; pv_c := 3 |} /\ 0 < 25.
+Proof. split; [reflexivity | lra]. Qed.
+
 (* ---- interpolation ---- *)
 Theorem C18_interpolate_endpoints : forall (x1 x2 : R) (a b : vec3) (l1 l2 : list R), length l1 = length l2 ->
   sc_interp Rops x1 x2 0 = x1 /\ sc_interp Rops x1 x2 1 = x2 /\
